@@ -266,15 +266,20 @@ def obligations(tier: str) -> List[dict]:
             f1_n=1, triples=False)
     else:
         for m in ('default', 'amr', 'custom'):
+            add('h_errors', 'errors', 300, model=m, n=0)
+            add('h_errors', 'errors', 600, model=m, n=1)
             for top in range(len(TOPS)):
+                add('h_errors', 'errors', 1200, model=m, n=2, top=top)
                 for s0 in range(2):
-                    add('h_errors', 'errors', 3000, model=m, n=3, top=top,
-                        t0_s=s0)
+                    for r0 in range(5):
+                        add('h_errors', 'errors', 1800, model=m, n=3,
+                            top=top, t0_s=s0, t0_r=r0)
+        add('h_decoded', 'decoded graphs', 900, ['role-error'], n=2)
         for op in (0, 1):
-            add('h_decoded', 'decoded graphs', 3000, n=3, i0_op=op)
+            add('h_decoded', 'decoded graphs', 1800, n=3, i0_op=op)
         for sep in range(3):
             for tr in (False, True):
-                add('h_tool', 'tool', 3000, nfiles=3, use_stdin=False,
+                add('h_tool', 'tool', 1800, nfiles=3, use_stdin=False,
                     sep=sep, triples=tr)
                 add('h_tool', 'tool', 600, nfiles=1, use_stdin=True,
                     sep=sep, triples=tr)
